@@ -430,10 +430,26 @@ pub struct Built {
     pub root: VfsPath,
     pub bases: Vec<Base>,
     pub ctl: Arc<Ctl>,
+    /// for a top-level altroot: the root of the filesystem it is rooted in (through the wrappers)
+    pub alt_underlying: Option<VfsPath>,
     _scratch: Vec<Scratch>,
 }
 
 impl Built {
+    /// Everything the filesystem directly below a top-level altroot shows outside `p` (overlay
+    /// bookkeeping masked): the part of the world no call through the altroot may change.
+    pub fn outside_altroot(&self, p: &str) -> Vec<String> {
+        match &self.alt_underlying {
+            None => vec![],
+            Some(s) => crate::snapshot::snapshot(s, &[])
+                .without_markers()
+                .dump()
+                .into_iter()
+                .filter(|line| !dump_line_is_below(line, p))
+                .collect(),
+        }
+    }
+
     /// OS directories `<scratch>/outer` of the PhysicalFS bases (their roots are `outer/root`).
     pub fn phys_outer_dirs(&self) -> Vec<std::path::PathBuf> {
         self._scratch.iter().map(|s| s.path.join("outer")).collect()
@@ -443,7 +459,18 @@ impl Built {
 /// Names used for altroot prefixes and sentinels; disjoint from every universe.
 pub const SENTINEL_DIR: &str = "/S";
 
+/// Does a snapshot dump line (it starts with the quoted path) describe a path at or below `p`?
+pub fn dump_line_is_below(line: &str, p: &str) -> bool {
+    if p.is_empty() {
+        return true;
+    }
+    let quoted = format!("{:?}", p);
+    let q = &quoted[..quoted.len() - 1];
+    line.starts_with(&format!("{}\"", q)) || line.starts_with(&format!("{}/", q))
+}
+
 struct Builder {
+    alt_underlying: Option<VfsPath>,
     ctl: Arc<Ctl>,
     bases: Vec<Base>,
     scratch: Vec<Scratch>,
@@ -491,6 +518,9 @@ impl Builder {
                 let first = self.bases.len();
                 let s = self.node(inner, &format!("{}.0", id), lower, upper, top_layer);
                 let root = make_altroot_dir(&s, p, self.sentinels);
+                if id == "0" {
+                    self.alt_underlying = Some(s.clone());
+                }
                 for b in &mut self.bases[first..] {
                     b.prefix = format!("{}{}", b.prefix, p);
                 }
@@ -545,6 +575,7 @@ pub fn build(cfg: &Cfg, order: Order, init: &Init) -> Built {
 pub fn build_opts(cfg: &Cfg, order: Order, init: &Init, sentinels: bool) -> Built {
     let ctl = Ctl::new(order);
     let mut b = Builder {
+        alt_underlying: None,
         ctl: ctl.clone(),
         bases: vec![],
         scratch: vec![],
@@ -556,6 +587,7 @@ pub fn build_opts(cfg: &Cfg, order: Order, init: &Init, sentinels: bool) -> Buil
         root,
         bases: b.bases,
         ctl,
+        alt_underlying: b.alt_underlying,
         _scratch: b.scratch,
     };
     for (bi, entries) in init {
